@@ -348,6 +348,11 @@ ORD_FAMILIES = [
 ORD_ATOMS = sorted(set(x for fam in ORD_FAMILIES for x in fam))
 ORD_WRAPS = ['(%s)&""', 'TYPE(%s)', '%s', 'ISNUMBER(%s)&ISTEXT(%s)&ISLOGICAL(%s)', 'N(%s)&""', 'T(%s)&"."', 'SUM(%s)&""', 'ABS(%s)&""', '(%s)*1&""', 'IF(%s,"y","n")', 'EXACT(%s,1)', 'MAX(%s,0)&""', '(-(%s))&""', 'TEXTJOIN("/",TRUE,%s)']
 ORD_OPS = ['+', '+', '-', '*', '*', '/', '&', '=', '<', '<>', '>=']     # no ^: exact integer powers of 2^53-sized operands run for hours inside CPython (scope note in DESIGN.md)
+# one-argument calls over the same families: a result cache on any of these functions that keys by == (or by name across functions) shows up as order dependence
+ORD_FUNCS = ['ABS(%s)', 'INT(%s)', 'SIGN(%s)', 'FACT(%s)', 'FACTDOUBLE(%s)', 'SQRT(%s)', 'EVEN(%s)', 'ODD(%s)', 'ROUND(%s,0)', 'ROUNDUP(%s,0)', 'ROUNDDOWN(%s,0)', 'CEILING(%s,1)', 'FLOOR(%s,1)', 'N(%s)', 'T(%s)', 'LEN(%s)',
+             'ISEVEN(%s)', 'ISODD(%s)', 'DEC2HEX(%s)', 'BASE(%s,2)', 'ROMAN(%s)', 'CHAR(%s+64)', 'LEFT("abc",%s)', 'RIGHT("abc",%s)', 'REPT("a",%s)', 'CHOOSE(%s+1,"x","y","z")', 'INDEX({5,6,7},%s+1)', 'DATE(2020,%s,1)',
+             'EXP(%s)', 'LN(%s+1)', 'COS(%s)', 'POWER(%s,2)', 'MOD(%s,2)', 'QUOTIENT(%s,1)', 'TEXT(%s,"0.0")', 'VALUE(%s)', 'UPPER(%s)', 'TRIM(%s)', 'NOT(%s)', 'AND(%s,1)', 'OR(%s,0)', 'IF(%s,1,2)', 'COUNT(%s)', 'COUNTA(%s)',
+             'SUM(%s,0)', 'MAX(%s)', 'MIN(%s)', 'AVERAGE(%s)', 'PRODUCT(%s)', 'MEDIAN(%s)', 'YEAR(%s+40000)', 'WEEKDAY(%s+40000)', 'ERROR.TYPE(%s)', 'ISBLANK(%s)', 'COMPLEX(%s,1)', 'HEX2DEC(%s)', 'DECIMAL(%s,10)', 'ARABIC(ROMAN(%s+1))']
 ORD_LISTS = ['SUM(v_l)&""', 'v_l&""', 'v_m&""', 'MAX(v_m)&""', 'v_l=v_m', 'TEXTJOIN("/",TRUE,v_l)', 'TEXTJOIN("/",TRUE,v_m)', 'MATCH(TRUE,v_l,0)', 'MATCH(1,v_m,0)', 'INDEX(v_l,2)&""', 'COUNTIF(v_l,1)', 'COUNTIF(v_m,TRUE)']
 
 
@@ -362,6 +367,12 @@ def order_formulas(draw):
             out.append(draw(st.sampled_from(ORD_LISTS)))
             continue
         a = draw(atom)
+        if k == 1:
+            f = draw(st.sampled_from(ORD_FUNCS)).replace('%s', a)
+            f = draw(st.sampled_from(['(%s)&""', 'TYPE(%s)', '%s'])).replace('%s', f)
+            if f not in out:
+                out.append(f)
+            continue
         if k <= 3:
             inner = a
         else:
@@ -419,7 +430,7 @@ LAWS = [
     Law('order_independence', check_order, strategy=order_case, quick=170, thorough=12000, shards=(16, 16), key=lambda c: '', guard=400,
         classes=lambda c: ('debug:%s' % c['debug'], 'n%d' % min(len(c['formulas']), 4)), required=('debug:True', 'debug:False', 'n2', 'n4'),
         nontrivial=lambda c: len(c['formulas']) >= 3,
-        rule='2-6 distinct formulas over values that are equal but of different kinds (TRUE/1/1.0/"1", 0/0.0/-0.0, 2^53 as int and float, a date and its serial, lists of them) under observers that tell the kinds apart (&"", TYPE, IS*, N, T, EXACT, MATCH, COUNTIF, TEXTJOIN), '
+        rule='2-6 distinct formulas over values that are equal but of different kinds (TRUE/1/1.0/"1", 0/0.0/-0.0, 2^53 as int and float, a date and its serial, lists of them) under observers that tell the kinds apart (&"", TYPE, IS*, N, T, EXACT, MATCH, COUNTIF, TEXTJOIN) or as the argument of one of 58 one-argument calls, '
              'each on its own new parser, are evaluated in a brand-new interpreter process in one order and in a second brand-new interpreter in a shuffled order: every formula must give the same outcome in both (this reaches state kept at module level, which an oracle living in the same process would share); non-trivial = at least 3 formulas'),
     Law('no_retention', check_retention, strategy=st.fixed_dictionaries({'f': st.sampled_from(RETAIN), 'n': st.sampled_from([50, 200]), 'debug': st.booleans()}), key=ret_key,
         quick=200, thorough=4000, shards=(16, 16), shrink=False,
